@@ -55,7 +55,22 @@ def f23_history():
                     {"op": "build", "tasks": [tu, tp], "cfg": dict(cfg, force=True), "faults": {}}], "sources": [101]}
 
 
-OPTS["C10"]["corpus"] = [f23_history()]
+def dry_limit_history():
+    """a dry run with a failure limit over several stale tasks, then the real build with the same options"""
+    def tk(i, deps, prods):
+        return {"id": i, "module": 1, "deps": deps, "prods": prods, "mver": 0, "skip": False, "skipifs": [], "persist": False, "prio": 0,
+                "marks": [], "attrs": [], "after_fn": [], "after_expr": None, "use_decorator": False}
+    ts = [tk(1, [101], [111]), tk(2, [111], [112]), tk(3, [112], [113]), tk(4, [101], [114]), tk(5, [], [115])]
+    cfg = {"force": False, "dry_run": False, "max_failures": 1, "expression": "", "marker_expression": "", "capture": "no"}
+    return {"ops": [{"op": "set", "n": 101, "c": 5},
+                    {"op": "build", "tasks": ts, "cfg": dict(cfg, dry_run=True), "faults": {}},
+                    {"op": "build", "tasks": ts, "cfg": cfg, "faults": {}},
+                    {"op": "set", "n": 101, "c": 6},
+                    {"op": "build", "tasks": ts, "cfg": dict(cfg, dry_run=True, max_failures=2), "faults": {}},
+                    {"op": "build", "tasks": ts, "cfg": dict(cfg, max_failures=2), "faults": {}}], "sources": [101]}
+
+
+OPTS["C10"]["corpus"] = [f23_history(), dry_limit_history()]
 for k in ("C01", "C04", "C06"):
     OPTS[k]["corpus"] = [f1_history()]
 for k in ("C08", "C09"):
@@ -205,6 +220,32 @@ def mem_history(rng):
     return {"ops": [{"op": "set", "n": 101, "c": rng.randint(1, 50)}, {"op": "build", "tasks": tasks, "cfg": cfg, "faults": faults}], "sources": [101]}
 
 
+def persist_shapes_history(rng):
+    """persist tasks in the positions where persisting is delicate: behind an `after` edge whose
+    upstream product changes, and in a chain of two persist tasks where the first one has to run again"""
+    def tk(i, deps, prods, **kw):
+        d = {"id": i, "module": 1, "deps": deps, "prods": prods, "mver": 0, "skip": False, "skipifs": [], "persist": False, "prio": 0,
+             "marks": [], "attrs": [], "after_fn": [], "after_expr": None, "use_decorator": False}
+        d.update(kw)
+        return d
+    cfg = {"force": False, "dry_run": False, "max_failures": None, "expression": "", "marker_expression": "", "capture": "no"}
+    if rng.random() < 0.5:
+        ts = [tk(1, [101], [111]), tk(2, [102], [112], persist=True, after_expr="t1_"), tk(3, [112], [113])]
+        edits = [{"op": "set", "n": 101, "c": rng.randint(51, 99)}]
+    else:
+        ts = [tk(1, [101], [111], persist=True), tk(2, [111], [112], persist=True), tk(3, [112], [113])]
+        edits = [{"op": "del", "n": 111}, {"op": "set", "n": 101, "c": rng.randint(51, 99)}]
+        if rng.random() < 0.5:
+            edits = edits[:1]
+    rng.shuffle(ts)
+    ops = [{"op": "set", "n": 101, "c": rng.randint(1, 50)}, {"op": "set", "n": 102, "c": rng.randint(1, 50)},
+           {"op": "build", "tasks": ts, "cfg": cfg, "faults": {}}] + edits + [
+           {"op": "build", "tasks": ts, "cfg": cfg, "faults": {}}, {"op": "build", "tasks": ts, "cfg": cfg, "faults": {}}]
+    return {"ops": ops, "sources": [101, 102]}
+
+
+OPTS["C17"]["templates"] = [persist_shapes_history]
+OPTS["C17"]["ntemplates"] = 6
 for k in ("C02", "C03", "C04"):
     OPTS[k]["templates"] = [outofstep_history]
 for k in ("C04", "C01", "C08"):
